@@ -15,15 +15,6 @@ pub open spec fn idx_lookup_wf(idx: SourceMapIndex) -> bool
 pub open spec fn dm_lookup_wf(dm: DecodedMap) -> bool {
     match dm { DecodedMap::Regular(sm) => sorted_tokens(sm.tokens@), DecodedMap::Index(inner) => idx_lookup_wf(inner), DecodedMap::Hermes(h) => sorted_tokens(h.sm.tokens@) }
 }
-/// the statement of SourceMap::lookup_token (C04 / C07) as a relation between map, position and answer
-pub open spec fn sm_lookup_post<'a>(sm: &'a SourceMap, line: u32, col: u32, res: Option<Token<'a>>) -> bool {
-    &&& (res is None <==> (forall|i: int| 0 <= i < sm.tokens@.len() ==> !tle(#[trigger] tkey(sm.tokens@[i]), (line, col))))
-    &&& (res matches Some(t) ==> tle(tkey(*t.raw), (line, col))
-            && (forall|i: int| 0 <= i < sm.tokens@.len() && tle(#[trigger] tkey(sm.tokens@[i]), (line, col)) ==> tle(tkey(sm.tokens@[i]), tkey(*t.raw))))
-    &&& (res matches Some(t) ==> (exists|p: int| 0 <= p < sm.tokens@.len() && t.raw == &#[trigger] sm.tokens@[p] && (tkey(sm.tokens@[p]) == (line, col) ==> (p == t.idx && forall|i: int| 0 <= i < p ==> #[trigger] tkey(sm.tokens@[i]) != (line, col)))))
-    &&& (res matches Some(t) ==> t.offset == (if t.raw.is_range && t.raw.dst_line == line { (col - t.raw.dst_col) as u32 } else { 0u32 }))
-    &&& (res matches Some(t) ==> t.sm == sm)
-}
 /// the answer of an index map: nothing before the first section; otherwise the answer of the section with the greatest
 /// offset not after the position (nothing if it is unresolved) to the section-relative position
 pub open spec fn idx_lookup_post<'a>(idx: &'a SourceMapIndex, line: u32, col: u32, res: Option<Token<'a>>) -> bool
